@@ -35,6 +35,71 @@ KERNELS = [
 ]
 
 
+
+# ---------------- part 2: symmetry bookkeeping and the bin transforms of the symmetry operations ----------------
+HARNESS_B = os.path.join(VERIF, "harness", "c03b.c")
+REPO_ = os.environ.get("VERIF_REPO", "/repo")
+DS_INL = "src/include/stir/recon_buildblock/DataSymmetriesForBins_PET_CartesianGrid.inl"
+OPS_INL = "src/include/stir/recon_buildblock/SymmetryOperations_PET_CartesianGrid.inl"
+DS = r"DataSymmetriesForBins_PET_CartesianGrid::"
+SYMMEMBERS = (r"(?<![\w>.])(do_symmetry_90degrees_min_phi|do_symmetry_180degrees_min_phi|do_symmetry_swap_segment|do_symmetry_swap_s|do_symmetry_shift_z|num_views)\b",
+              r"self->\1", (1, 99))
+CYL = (r'if \(proj_data_info_ptr->get_scanner_ptr\(\)->get_scanner_geometry\(\) == "Cylindrical"\)', "if (1) /* cylindrical branch */", 1)
+CYL_SPAN = (r'if \(proj_data_info_ptr->get_scanner_ptr\(\)->get_scanner_geometry\(\) == "Cylindrical"\)',
+            r'\n    \}(?=\s*(?://[^\n]*\n\s*)*if \(proj_data_info_ptr->get_scanner_ptr\(\)->get_scanner_geometry\(\) == "BlocksOnCylindrical"\))')
+NEWOPS = [(r"return new SymmetryOperation_PET_CartesianGrid_z_shift\(([^;]*)\);", r"return MKOP2(OP_z_shift, \1);", (1, 3)),
+          (r"return new SymmetryOperation_PET_CartesianGrid_(\w+)\(([^;]*)\);", r"return MKOPN(OP_\1, \2);", (5, 40)),
+          (r"return new TrivialSymmetryOperation\(\);", "return MKOP_TRIVIAL();", (1, 3)),
+          (r"\bfind_transform_z\(", "K_find_transform_z(self, ", 1), (r"num_planes_per_axial_pos\[segment_num\]", "K_num_planes_per_axial_pos(self, segment_num)", 1)]
+FALLTHROUGH = '__CPROVER_assert(0, "the cylindrical branch returns on every path"); return MKOP_TRIVIAL();'
+BINREF = (r"(?<![\w.>*&])(segment_num|view_num|axial_pos_num|tangential_pos_num|timing_pos_num)\b", r"(*\1)", (5, 60))
+
+
+def _op_classes():
+    try:
+        src = extract.strip_comments(open(os.path.join(REPO_, OPS_INL)).read())
+    except OSError:
+        return []
+    return re.findall(r"SymmetryOperation_PET_CartesianGrid_(\w+)::transform_bin_coordinates\(Bin& b\) const", src)
+
+
+OP_CLASSES = _op_classes()
+KERNELS_B = [
+    dict(name="K_find_basic_vs", file=DS_INL, cxx_name=DS[:-2].replace("\\", "") + "::find_basic_view_segment_numbers",
+         func=DS + r"find_basic_view_segment_numbers\(ViewSegmentNumbers& v_s\) const", c_header="_Bool K_find_basic_vs(const struct SYM* self, struct VS* v_s)",
+         loops=0, rules=[(r"v_s\.segment_num\(\)", "v_s->segment_num", (3, 5)), (r"v_s\.view_num\(\)", "v_s->view_num", (10, 20)), SYMMEMBERS]),
+    dict(name="K_find_sym_op_bin0", file=DS_INL, cxx_name="DataSymmetriesForBins_PET_CartesianGrid::find_sym_op_bin0 (cylindrical branch)",
+         func=DS + r"find_sym_op_bin0\(int segment_num, int view_num, int axial_pos_num\) const", span=CYL_SPAN,
+         c_header="struct OP K_find_sym_op_bin0(const struct SYM* self, int segment_num, int view_num, int axial_pos_num)", loops=0,
+         rules=[CYL] + NEWOPS + [SYMMEMBERS], post=FALLTHROUGH),
+    dict(name="K_find_sym_op_general_bin", file=DS_INL, cxx_name="DataSymmetriesForBins_PET_CartesianGrid::find_sym_op_general_bin (cylindrical branch)",
+         func=DS + r"find_sym_op_general_bin\(int s, int segment_num, int view_num, int axial_pos_num\) const", span=CYL_SPAN,
+         c_header="struct OP K_find_sym_op_general_bin(const struct SYM* self, int s, int segment_num, int view_num, int axial_pos_num)", loops=0,
+         rules=[CYL] + NEWOPS + [SYMMEMBERS], post=FALLTHROUGH),
+    dict(name="K_find_basic_bin", file=DS_INL, cxx_name="DataSymmetriesForBins_PET_CartesianGrid::find_basic_bin(int&,...) (cylindrical branch)",
+         func=DS + r"find_basic_bin\(\s*int& segment_num, int& view_num, int& axial_pos_num, int& tangential_pos_num, int& timing_pos_num\) const",
+         span=(r"ViewSegmentNumbers v_s\(view_num, segment_num\);", r"return change;"),
+         c_header="_Bool K_find_basic_bin(const struct SYM* self, int* segment_num, int* view_num, int* axial_pos_num, int* tangential_pos_num, int* timing_pos_num)",
+         loops=0, pre="_Bool change = 0;",
+         rules=[BINREF, (r"ViewSegmentNumbers v_s\(\(\*view_num\), \(\*segment_num\)\);", "struct VS v_s; v_s.view_num = *view_num; v_s.segment_num = *segment_num;", 1),
+                (r"find_basic_view_segment_numbers\(v_s\)", "K_find_basic_vs(self, &v_s)", 1), (r"v_s\.(view_num|segment_num)\(\)", r"v_s.\1", 2), SYMMEMBERS]),
+    dict(name="K_find_symmetry_operation_from_basic_bin_real", file=DS_INL, cxx_name="DataSymmetriesForBins_PET_CartesianGrid::find_symmetry_operation_from_basic_bin",
+         func=DS + r"find_symmetry_operation_from_basic_bin\(Bin& b\) const",
+         c_header="struct OP K_find_symmetry_operation_from_basic_bin_real(const struct SYM* self, struct Bin* b)", loops=0,
+         rules=[(r"unique_ptr<SymmetryOperation> sym_op\(", "struct OP sym_op = (", 1),
+                (r"\bfind_sym_op_bin0\(", "K_find_sym_op_bin0(self, ", 1), (r"\bfind_sym_op_general_bin\(", "K_find_sym_op_general_bin(self, ", 1),
+                (r"\bb\.(segment_num|view_num|axial_pos_num|tangential_pos_num|timing_pos_num)\(\)", r"b->\1", 8),
+                (r"(?<![\w.])find_basic_bin\(b\);", "K_find_basic_bin(self, &b->segment_num, &b->view_num, &b->axial_pos_num, &b->tangential_pos_num, &b->timing_pos_num);", 1)]),
+]
+for _c in OP_CLASSES:
+    KERNELS_B.append(dict(name="K_op_%s_bin" % _c, file=OPS_INL, cxx_name="SymmetryOperation_PET_CartesianGrid_%s::transform_bin_coordinates" % _c,
+                          func=r"SymmetryOperation_PET_CartesianGrid_%s::transform_bin_coordinates\(Bin& b\) const" % _c,
+                          c_header="void K_op_%s_bin(const struct OP* op, struct Bin* b)" % _c, loops=0,
+                          rules=[(r"\bb\.(segment_num|view_num|axial_pos_num|tangential_pos_num|timing_pos_num)\(\)", r"b->\1", (1, 20)),
+                                 (r"(?<![\w>.])(axial_pos_shift|view180|z_shift|q)\b", r"op->\1", (1, 20))]))
+KERNELS += KERNELS_B
+
+
 def extra_gen(repo, gen_dir, metas):
     h = extract.strip_comments(open(os.path.join(repo, "src/include/stir/recon_buildblock/ProjMatrixByBin.h")).read())
     vals = {}
@@ -55,6 +120,29 @@ def extra_gen(repo, gen_dir, metas):
     if n_ins != 1 or n_find != 1:
         raise extract.ExtractionError("ProjMatrixByBin.cxx: cache insert/find no longer keyed by [view][segment] + cache_key(bin) (%d/%d)" % (n_ins, n_find))
     metas.append({"kernel": "constants", "file": "src/include/stir/recon_buildblock/ProjMatrixByBin.h", "function": "cache key bit widths", "values": vals})
+    if len(OP_CLASSES) != 16:
+        raise extract.ExtractionError("SymmetryOperations_PET_CartesianGrid.inl: %d operation classes with transform_bin_coordinates found (expected 16)" % len(OP_CLASSES))
+    hdr = extract.strip_comments(open(os.path.join(repo, "src/include/stir/recon_buildblock/SymmetryOperations_PET_CartesianGrid.h")).read())
+    for c in OP_CLASSES:
+        # constructor parameter order (num_views, axial_pos_shift, z_shift[, q]) resp. (axial_pos_shift, z_shift) for z_shift: the MKOP macros rely on it
+        m = re.search(r"SymmetryOperation_PET_CartesianGrid_%s\(([^)]*)\)\s*:" % c, hdr)
+        if not m:
+            raise extract.ExtractionError("constructor of SymmetryOperation_PET_CartesianGrid_%s not found" % c)
+        names = [a.split()[-1] for a in m.group(1).split(",")]
+        want = ["axial_pos_shift", "z_shift"] if c == "z_shift" else ["num_views", "axial_pos_shift", "z_shift"]
+        if names[:len(want)] != want or (len(names) > len(want) and names[len(want):] != ["q"]):
+            raise extract.ExtractionError("constructor parameters of SymmetryOperation_PET_CartesianGrid_%s changed: %s" % (c, names))
+    with open(os.path.join(gen_dir, "c03_ops.h"), "w") as f:
+        f.write("enum { OP_trivial" + "".join(", OP_%s" % c for c in OP_CLASSES) + " };\n")
+    with open(os.path.join(gen_dir, "c03_dispatch.c"), "w") as f:
+        f.write("/* generated: virtual dispatch of SymmetryOperation::transform_bin_coordinates over the %d classes of the .inl (+ TrivialSymmetryOperation: identity) */\n" % len(OP_CLASSES))
+        for c in OP_CLASSES:
+            f.write('#define CONTRACT_K_op_%s_bin\n#include "K_op_%s_bin.c"\n' % (c, c))
+        f.write("void K_op_transform_bin(const struct OP* op, struct Bin* b)\n{\n  switch (op->kind)\n    {\n    case OP_trivial: break;\n")
+        for c in OP_CLASSES:
+            f.write("    case OP_%s: K_op_%s_bin(op, b); break;\n" % (c, c))
+        f.write('    default: __CPROVER_assert(0, "unknown operation class"); break;\n    }\n}\n')
+    metas.append({"kernel": "operation classes", "file": OPS_INL, "function": "SymmetryOperation_PET_CartesianGrid_* (transform_bin_coordinates)", "values": OP_CLASSES})
     STATIC_FACTS[:] = ["cache_collection is indexed [view][segment] and keyed by cache_key(bin) at its single insert and single find site (syntactic scan)"]
 
 
@@ -79,19 +167,59 @@ def jobs(tier, gen_dir):
                    flags=["--pointer-check"], object_bits=12))
     out.append(Job("c03/canary/" + k, HARNESS, "h_" + k, enforce=k, replace=repl, kernels=[k], timeout=120, kind="canary",
                    defines={"CANARY_" + k: None}, expect_fail=r"%s\.postcondition" % k, no_base_flags=True, object_bits=12))
+    CH = ["--signed-overflow-check", "--div-by-zero-check", "--bounds-check", "--pointer-check"]
+    out.append(Job("c03/lemma_symmetry", HARNESS_B, "h_lemma_symmetry", kind="lemma", kernels=[k["name"] for k in KERNELS_B], flags=CH, no_base_flags=True,
+                   replace=["K_find_transform_z", "K_num_planes_per_axial_pos"],
+                   timeout=600, min_obligations=6, backend="kissat", params={"num_views": "symbolic <= 4096", "symmetry switches": "symbolic (all valid combinations)"}))
+    out.append(Job("c03/canary/lemma_symmetry", HARNESS_B, "h_lemma_symmetry", kind="canary", kernels=[], defines={"LEMMA_CANARY": None}, flags=[], no_base_flags=True,
+                   replace=["K_find_transform_z", "K_num_planes_per_axial_pos"],
+                   expect_fail=r"vacuity canary", timeout=600, backend="kissat"))
     return out
 
 
 TRUSTED = [
-    "ASSUMED contracts (not verified here): calculate_proj_matrix_elems_for_one_bin, apply_tof_kernel, SymmetryOperation::transform_proj_matrix_elems_for_one_bin, find_symmetry_operation_from_basic_bin (basic bin is a fixed point with the trivial operation), std::unordered_map find/insert",
+    "ASSUMED contracts in the cache-protocol job: calculate_proj_matrix_elems_for_one_bin, apply_tof_kernel, SymmetryOperation::transform_proj_matrix_elems_for_one_bin, std::unordered_map find/insert; find_symmetry_operation_from_basic_bin is abstract there and decided by the job lemma_symmetry",
+    "lemma_symmetry: SYM_VALID and 'TOF data => only the z-shift symmetry' as established by the constructor (read from the source); virtual dispatch = generated switch over the scraped class list; image-side quantities (transform_z, planes per axial position) arbitrary",
     "std::unordered_map: find(k) returns the value inserted under k in the same [view][segment] bucket; with cache_key injective this is the row of the same bin",
     "history quantifier: induction over requests using the cache invariant CACHED_CONTENT_OK (argued, not machine-checked)",
 ]
 ASSUMPTIONS = ["rows are abstract content ids; equality of float values of symmetry-related rows is NOT decided"]
 UNDECIDED_CLAUSES = ["row values equal up to rounding between direct and symmetry-derived computation", "non-negativity of elements",
-                     "voxels inside the image / no duplicate voxel (needs the 17 symmetry operations under contract: K03b, not built)",
+                     "voxels inside the image / no duplicate voxel (transform_image_coordinates of the operations: not under contract)",
                      "clear_cache / set_up again"]
 
 
 def param_summary(tier):
     return {"bins": "fully symbolic within the cache-key domain", "cache modes": "disabled / basic-only / full, symbolic"}
+
+
+# ---------------- native replay of the symmetry lemma (real libraries; driver shared with C06) ----------------
+from vlib import native
+
+
+def _tf(v, key, d):
+    return next((1 if str(val).upper().startswith("T") else 0 for k, val in v.items() if k.endswith(key)), d)
+
+
+def replay(job, o, workroot, repo):
+    if "symmetry" not in job.name:
+        return {"status": "unavailable", "detail": "no native replay routine for this job (abstract row ids)"}
+    exe = os.path.join(workroot, "c06_replay")
+    if not os.path.exists(exe):
+        exe, info = native.build(repo, os.path.join(VERIF, "replay", "c06.cpp"), exe)
+        if not exe:
+            return {"status": "unavailable", "detail": "replay driver did not build: " + info}
+    v = o.get("inputs", {})
+    cands = []
+    nvm = re.match(r"^-?\d+", str(v.get("h:s.num_views", "")))
+    if nvm and 1 <= int(nvm.group(0)) <= 128:
+        cands.append(["symop", int(nvm.group(0)), 0, 2, _tf(v, "do_symmetry_90degrees_min_phi", 0), _tf(v, "do_symmetry_180degrees_min_phi", 0),
+                      _tf(v, "do_symmetry_swap_segment", 0), _tf(v, "do_symmetry_swap_s", 0), _tf(v, "do_symmetry_shift_z", 0)])
+    for nv in (8, 12, 6, 16):
+        for fl in ((1, 1, 1, 1, 1), (0, 1, 1, 1, 1), (0, 0, 1, 1, 1), (0, 1, 0, 1, 0), (1, 1, 0, 0, 1), (0, 0, 0, 1, 0), (0, 0, 0, 0, 0)):
+            cands.append(["symop", nv, 0, 2] + list(fl))
+    for c in cands:
+        st, detail = native.run(exe, c, timeout=900)
+        if st == "confirmed":
+            return {"status": "confirmed", "detail": detail, "command": "c06_replay " + " ".join(map(str, c)), "from_verifier_counterexample": c is cands[0] and bool(nvm)}
+    return {"status": "not-reproduced", "detail": "%d native runs (every bin of each configuration)" % len(cands)}
